@@ -80,7 +80,7 @@ func genRequest(t *rapid.T, f *model.Forest) []int {
 }
 
 func genC02(t *rapid.T) C02Case {
-	lim := tierLimits()
+	lim := genLimits(t)
 	f := &model.Forest{}
 	n := rapid.IntRange(1, lim.maxBlocks).Draw(t, "nblocks")
 	c := C02Case{}
